@@ -511,6 +511,12 @@ fn property_bias(prop: &str, mut c: CCfg, seed: u64) -> CCfg {
         "C14" => {
             c.block_transport = true;
             c.cap = *r.pick(&[1, 1, 2, 3, 8]);
+            // "never write after it reported a readiness, flush or close failure" needs failures
+            if r.chance(1, 4) {
+                let op = *r.pick(&[Op::Ready, Op::Flush, Op::Close, Op::Send, Op::Next]);
+                c.fault = Some((op, 1 + r.below(15)));
+                c.hooks = false;
+            }
         }
         _ => {}
     }
@@ -869,6 +875,12 @@ pub fn server_cfg(prop: &str, i: u64, base_seed: u64, thorough: bool) -> SCfg {
         "C12" => {
             c.limit = Some(*r.pick(&[0, 1, 1, 2, 3, 8]));
             c.nmsgs = 3 + r.below(14);
+        }
+        "C14" => {
+            if r.chance(1, 4) {
+                let op = *r.pick(&[Op::Ready, Op::Flush, Op::Send, Op::Next]);
+                c.fault = Some((op, 1 + r.below(15)));
+            }
         }
         _ => {}
     }
